@@ -142,46 +142,138 @@ def register(Rg: Registry):
         S.assume(a[0].z * a[0].z + a[1].z * a[1].z + a[2].z * a[2].z == 1)
         return NArr((3,), a, "real")
 
+    def vec3(S, name):
+        return NArr((3,), [S.real(f"{name}{k}") for k in "xyz"], "real")
+
+    # find_unit_vector_on_plane: the contract is its PURPOSE -- for every non-zero normal the result is a unit vector orthogonal to it
+    # (a fresh array; the argument is not written).  Nothing in the clauses or in the proof hints names a local of the carrier: the
+    # hints look at VALUES (3-vectors among the locals, quotients inside the result), so a renamed local or a different but correct way
+    # of producing the vector is judged by the same two equations.
+    def _dot3(a, b):
+        return sum((R(x) * R(y) for x, y in zip(a, b)), z3.RealVal(0))
+
     def fuv_post(E, v, o):
-        u, n = v["result"].items, o["normal_vec3"].items
-        dot = lambda a, b: sum((R(x) * R(y) for x, y in zip(a, b)), z3.RealVal(0))
-        return z3.And(dot(u, u) == 1, dot(u, n) == 0)
+        res = v["result"]
+        if not (isinstance(res, NArr) and res.shape == (3,)):
+            return False
+        u, n = res.items, o["normal_vec3"].items
+        return z3.And(_dot3(u, u) == 1, _dot3(u, n) == 0)
 
-    from pyvc.lemmas import use
+    def fuv_frame(E, v, o):
+        res, n_new, n_old = v["result"], v["normal_vec3"], o["normal_vec3"]
+        if not (isinstance(res, NArr) and isinstance(n_new, NArr) and n_new.shape == (3,)):
+            return False
+        if res.root().uid == n_new.root().uid:
+            return False
+        return z3.And(*[R(x) == R(y) for x, y in zip(n_new.items, n_old.items)])
 
-    def fuv_hint(E, vars):
-        if "u" not in vars or "r" not in vars:
-            return
-        r, n = [R(x) for x in vars["r"].items], [R(x) for x in vars["normal_vec3"].items]
-        u = [R(x) for x in vars["u"].items]
-        use(E, "sum-of-three-squares-zero", *u)
-        use(E, "zero-cross-product-means-parallel", *r, *n)
-        use(E, "parallel-unit-vectors-are-equal-or-opposite", *r, *n, r[0] * n[0] + r[1] * n[1] + r[2] * n[2])
+    from pyvc.lemmas import LEMMAS, lemma as _lem, use
 
-    def fuv_post_hinted(E, v, o):
-        if "r" not in v:  # at a CALL SITE there is no local `r`: the plain statement (unit vector orthogonal to the argument)
-            return fuv_post(E, v, o)
-        r, n = [R(x) for x in v["r"].items], [R(x) for x in o["normal_vec3"].items]
-        cr = (r[1] * n[2] - r[2] * n[1], r[2] * n[0] - r[0] * n[2], r[0] * n[1] - r[1] * n[0])
-        u0 = R(v["result"].items[0])
-        if not (z3.is_app(u0) and u0.decl().kind() == z3.Z3_OP_DIV):
+    def _cr(r, n):
+        return (r[1] * n[2] - r[2] * n[1], r[2] * n[0] - r[0] * n[2], r[0] * n[1] - r[1] * n[0])
+
+    if "cross-product-of-a-scaled-vector" not in LEMMAS:
+        @_lem("cross-product-of-a-scaled-vector", 7)
+        def _scaled_cross(a, b, c, y, n0, n1, n2):
+            lhs, rhs = _cr((a / y, b / y, c / y), (n0, n1, n2)), _cr((a, b, c), (n0, n1, n2))
+            return z3.Implies(y != 0, z3.And(*[y * p == q for p, q in zip(lhs, rhs)]))
+
+    def _vectors(vars):
+        """the 3-vectors of reals among the carrier's locals (by VALUE, whatever they are called)"""
+        out, seen = [], set()
+        for x in vars.values():
+            if isinstance(x, NArr) and x.shape == (3,) and x.uid not in seen and all(kind_of_real(i) for i in x.items):
+                seen.add(x.uid)
+                out.append(x)
+        return out
+
+    def kind_of_real(i):
+        return isinstance(i, Sym) or isinstance(i, (int, float)) or hasattr(i, "numerator")
+
+    def _quotients(items):
+        """(numerators, common denominator) when every item is a quotient by one and the same term"""
+        zs = [R(x) for x in items]
+        if all(z3.is_app(q) and q.decl().kind() == z3.Z3_OP_DIV for q in zs) and all(q.arg(1).eq(zs[0].arg(1)) for q in zs):
+            return [q.arg(0) for q in zs], zs[0].arg(1)
+        return None
+
+    def fuv_div_hint(E, vars):
+        """before a division: a sum of three squares vanishes only if every term does; a vector whose cross product with a UNIT
+        vector vanishes is that vector or its opposite (so a np.allclose test against +-normal would have rejected it); the cross
+        product of a normalised vector is the cross product divided by the norm"""
+        n = [R(x) for x in E.top_old["normal_vec3"].items]
+        for vec in _vectors(vars):
+            w = [R(x) for x in vec.items]
+            use(E, "sum-of-three-squares-zero", *w)
+            use(E, "zero-cross-product-means-parallel", *w, *n)
+            use(E, "parallel-unit-vectors-are-equal-or-opposite", *w, *n, w[0] * n[0] + w[1] * n[1] + w[2] * n[2])
+            if vec.uid not in E.ghost.setdefault("c13-fuv-steps", set()):
+                E.ghost["c13-fuv-steps"].add(vec.uid)
+                cr = _cr(w, n)  # pure geometry, true of ANY vector w: stated once per vector as a step of its own
+                E.prove("find_unit_vector_on_plane/step/a-unit-vector-whose-cross-product-with-a-unit-normal-vanishes-is-plus-or-minus-the-normal",
+                        z3.Implies(z3.And(_dot3(n, n) == 1, _dot3(w, w) == 1, cr[0] == 0, cr[1] == 0, cr[2] == 0),
+                                   z3.Or(z3.And(*[a == b for a, b in zip(w, n)]), z3.And(*[a == -b for a, b in zip(w, n)]))), "annotation")
+            q = _quotients(vec.items)
+            if q is not None:
+                use(E, "cross-product-of-a-scaled-vector", *q[0], q[1], *n)
+
+    def fuv_post_hint(E, vars):
+        """the result as the code built it: (a, b, c) / y  -- unit if y is the norm, orthogonal to whatever (a, b, c) is orthogonal to;
+        a cross product is orthogonal to both factors"""
+        n = [R(x) for x in E.top_old["normal_vec3"].items]
+        for vec in _vectors(vars):  # the result is one of them
+            q = _quotients(vec.items)
+            if q is not None:
+                use(E, "normalised-vector-is-unit", *q[0], q[1])
+                use(E, "scaled-vector-stays-orthogonal", *q[0], q[1], *n)
+            use(E, "cross-product-is-orthogonal", *[R(x) for x in vec.items], *n)
+
+    def fuv_draw_is_generic(E, draw):
+        """ALMOST-SURE hypothesis on the random oracle (a requirement on the draws, assumed where np.random.rand is called): the draw is
+        not parallel to the normal -- needed only when the normal is not a unit vector (for a unit normal the code's own rejection
+        test excludes it).  The excluded draws lie on one line through the origin: a null set of the cube [0, 1)^3."""
+        n = [R(x) for x in E.top_old["normal_vec3"].items]
+        d = [R(x) for x in draw.items]
+        return z3.Or(_dot3(n, n) == 1, *[c != 0 for c in _cr(d, n)])
+
+    def _loop_vector(v, o):
+        vs = [x for x in _vectors(v) if x.uid != v["normal_vec3"].uid]
+        if len(vs) != 1:
             from pyvc.engine import Unsupported
 
-            raise Unsupported("carrier changed shape: result is no longer cross(r, n) / norm")
-        y = u0.arg(1)
-        use(E, "normalised-vector-is-unit", *cr, y)
-        use(E, "cross-product-is-orthogonal", *r, *n)
-        use(E, "scaled-vector-stays-orthogonal", *cr, y, *n)
-        return fuv_post(E, v, o)
+            raise Unsupported("find_unit_vector_on_plane: the rejection loop is expected to carry exactly one 3-vector")
+        return [R(x) for x in vs[0].items]
+
+    class _AnyName(dict):
+        """loop-contract entry that applies to whatever name the loop rebinds"""
+
+        def __init__(self, rule):
+            super().__init__()
+            self.rule = rule
+
+        def get(self, nm, default=None):
+            return self.rule
+
+    def _fresh_vec(eng, cur):
+        from pyvc.values import fresh
+
+        return NArr((3,), [fresh("real", "r") for _ in range(3)], "real")
 
     Rg.add(f"{SG}:find_unit_vector_on_plane", prop="C13",
-           setup=lambda S: dict(normal_vec3=unit3(S, "n")),
+           variants={"unit-normal": lambda S: dict(normal_vec3=unit3(S, "n")),  # a case split of the one contract (every non-zero normal)
+                     "normal-of-any-other-length": lambda S: (lambda n: (S.assume(_dot3(n.items, n.items) != 1), dict(normal_vec3=n))[1])(vec3(S, "n"))},
+           requires=[("normal-is-not-the-zero-vector", lambda E, v, o: _dot3(v["normal_vec3"].items, v["normal_vec3"].items) > 0)],
            returns=lambda S, fr: (lambda a: a)(NArr((3,), [S.real(f"u{k}") for k in "xyz"], "real")),
-           ensures=[("unit-and-orthogonal-to-the-normal", fuv_post_hinted)],
-           loops={0: dict(invariant=[("r-is-a-unit-vector", lambda E, v, o: (lambda it: sum((R(x) * R(x) for x in it), z3.RealVal(0)) == 1)(v["r"].items))],
-                          rebind={"r": lambda eng, cur: NArr((3,), [__import__("pyvc.values", fromlist=["x"]).fresh("real", "r") for _ in range(3)], "real")})},
-           options=dict(exact_tolerances=True, hints={"safety/div-nonzero": fuv_hint}),
-           notes="termination of the rejection loop is not proved (probability-1 argument)")
+           ensures=[("unit-and-orthogonal-to-the-normal", fuv_post),
+                    ("result-is-a-fresh-array-and-the-normal-is-not-written", fuv_frame)],
+           loops={0: dict(invariant=[("candidate-is-a-unit-vector", lambda E, v, o: (lambda w: _dot3(w, w) == 1)(_loop_vector(v, o))),
+                                     ("candidate-is-not-parallel-to-a-non-unit-normal",
+                                      lambda E, v, o: (lambda w, n: z3.Or(_dot3(n, n) == 1, *[c != 0 for c in _cr(w, n)]))(_loop_vector(v, o), [R(x) for x in o["normal_vec3"].items]))],
+                          rebind=_AnyName(_fresh_vec))},
+           options=dict(almost_surely=[("random-draw-not-parallel-to-a-non-unit-normal", fuv_draw_is_generic)],
+                        hints={"safety/div-nonzero": fuv_div_hint, "candidate-is-not-parallel-to-a-non-unit-normal": fuv_div_hint,
+                               "post/unit-and-orthogonal-to-the-normal": fuv_post_hint}),
+           notes="every non-zero normal; np.random.rand is an arbitrary vector of [0, 1)^3; termination of the rejection loop is not proved (probability-1 argument)")
 
     def ppl_post(E, v, o):
         A, n, P, M = o["point_a"].items, o["direction_vector"].items, o["point_p"].items, v["result"].items
@@ -190,9 +282,6 @@ def register(Rg: Registry):
         on_line = z3.Exists([t], z3.And(*[R(M[k]) == R(A[k]) + t * R(n[k]) for k in range(3)]))
         perp = dot([R(P[k]) - R(M[k]) for k in range(3)], n) == 0
         return z3.And(perp, on_line)
-
-    def vec3(S, name):
-        return NArr((3,), [S.real(f"{name}{k}") for k in "xyz"], "real")
 
     Rg.add(f"{SG}:project_point_on_line", prop="C13", pure_inline=True,
            setup=lambda S: dict(point_a=vec3(S, "a"), direction_vector=unit3(S, "n"), point_p=vec3(S, "p")),
